@@ -2,6 +2,11 @@
    exactly once.  Statements about the drivers' access traces (Model/Kernels.v), for every series
    length, every window (0 and > len included) and every second-series length.  Axiom-free.       *)
 From Tevec Require Import Base.Prelude Model.Driver Proofs.Driver Model.Kernels Proofs.Kernels.
+(* extension: the kernels themselves inside the trace model (parts 6-11 below) *)
+From Coq Require Import ZArith Permutation.
+From Tevec Require Import Base.Num Base.XR Model.Features Model.Cmp Model.Norm Model.Binary Model.Reg Proofs.IdxRun Proofs.IdxPrefix
+     Proofs.Kernels2 Proofs.Kernels3 Model.SortCmp Model.Rank Model.Partition Model.Quantile Model.KernelsMap
+     Proofs.TransQuantile Proofs.KernelsMap Proofs.KernelsMap2 Proofs.OrderXR Proofs.KernelsXR.
 
 (* (1) unchecked element reads and output writes of the remove/add bodies are in bounds *)
 Theorem C10_apply_reads_in_bounds :
@@ -89,6 +94,268 @@ Example C10_example :
   trace_apply_to 2 3 = [AUget 0 0; AUset 0; AUget 0 0; AUget 0 1; AUset 1; AUget 0 1; AUget 0 2; AUset 2].
 Proof. reflexivity. Qed.
 
+
+(* ======================================================================================================
+   (6) the rescanning callbacks of cmp.rs / norm.rs / reg.rs inside the trace model.  `X_cb_tr` is the text of the
+   model callback `X_cb` in the traced monad (every `uget` logged).  ERASURE: it computes the model value.
+   READS: every access it performs is an unchecked read at an index of start.unwrap_or(0) ..= end — for every
+   state, every series, EVERY CARRIER (memory safety does not depend on the element type or on its order).   *)
+Theorem C10_vext_cb_traced :
+  forall (A T : Type) (NA : Num A) (DT : IsNone T A) (scmp : option A -> option A -> comparison)
+         (xs : list T) (mp : nat) (s : @ext A) (st : option nat) (e : nat) (v : T),
+    snd (vext_cb_tr scmp mp xs s (st, e, v)) = vext_cb scmp mp xs s (st, e, v) /\
+    (start_le st e -> reads_within (start_or_0 st) e (fst (vext_cb_tr scmp mp xs s (st, e, v)))).
+Proof. intros. split; [apply vext_cb_tr_erase|apply vext_cb_tr_reads]. Qed.
+
+Theorem C10_varg_cb_traced :
+  forall (A T : Type) (NA : Num A) (DT : IsNone T A) (scmp : option A -> option A -> comparison)
+         (xs : list T) (mp : nat) (s : @ext A) (st : option nat) (e : nat) (v : T),
+    snd (varg_cb_tr scmp mp xs s (st, e, v)) = varg_cb scmp mp xs s (st, e, v) /\
+    (start_le st e -> reads_within (start_or_0 st) e (fst (varg_cb_tr scmp mp xs s (st, e, v)))).
+Proof. intros. split; [apply varg_cb_tr_erase|apply varg_cb_tr_reads]. Qed.
+
+Theorem C10_vrank_cb_traced :
+  forall (A T B : Type) (NA : Num A) (DT : IsNone T A) (NB : Num B) (xs : list T) (mp wm1 : nat) (pct rev : bool)
+         (n : nat) (st : option nat) (e : nat) (v : T),
+    snd (vrank_cb_tr (B := B) mp wm1 pct rev xs n (st, e, v)) = vrank_cb mp wm1 pct rev xs n (st, e, v) /\
+    (start_le st e -> reads_within (start_or_0 st) e (fst (vrank_cb_tr (B := B) mp wm1 pct rev xs n (st, e, v)))).
+Proof. intros. split; [apply vrank_cb_tr_erase|apply vrank_cb_tr_reads]. Qed.
+
+Theorem C10_mmnorm_cb_traced :
+  forall (A T : Type) (NA : Num A) (DT : IsNone T A) (tmin tmax : A) (xs : list T) (mp : nat) (s : @mm A)
+         (st : option nat) (e : nat) (v : T),
+    snd (mmnorm_cb_tr tmin tmax mp xs s (st, e, v)) = mmnorm_cb tmin tmax mp xs s (st, e, v) /\
+    (start_le st e -> reads_within (start_or_0 st) e (fst (mmnorm_cb_tr tmin tmax mp xs s (st, e, v)))).
+Proof. intros. split; [apply mmnorm_cb_tr_erase|apply mmnorm_cb_tr_reads]. Qed.
+
+Theorem C10_resid_cb_reads_in_window :
+  forall (A T1 T2 : Type) (NA : Num A) (D1 : IsNone T1 A) (D2 : IsNone T2 A) (zs : list (T1 * T2)) (k : rstat)
+         (mp : nat) (s : @csum A) (st : option nat) (e : nat) (v : T1 * T2),
+    start_le st e -> reads_within (start_or_0 st) e (fst (resid_cb_tr k mp zs s (st, e, v))).
+Proof. intros. apply resid_cb_tr_reads. assumption. Qed.
+
+(* (7) the access trace of a WHOLE call of each kernel (driver reads + callback reads + slot writes, threaded
+   through the callback state; a panic in the callback ends the trace) is in bounds — unconditionally: every
+   series, every window (0 and > len included), every min_periods, both bodies, every carrier.            *)
+Theorem C10_ts_vmin_vmax_trace_in_bounds :
+  forall (A T : Type) (NA : Num A) (DT : IsNone T A) (scmp : option A -> option A -> comparison)
+         (body : bool) (w : nat) (mp : option nat) (xs : list T) (len2 : nat),
+    length xs <= len2 -> Forall (acc_ok (length xs) len2) (trace_ts_vext scmp body w mp xs).
+Proof. intros. apply trace_ts_vext_ok. assumption. Qed.
+
+Theorem C10_ts_vargmin_vargmax_trace_in_bounds :
+  forall (A T : Type) (NA : Num A) (DT : IsNone T A) (scmp : option A -> option A -> comparison)
+         (body : bool) (w : nat) (mp : option nat) (xs : list T) (len2 : nat),
+    length xs <= len2 -> Forall (acc_ok (length xs) len2) (trace_ts_varg scmp body w mp xs).
+Proof. intros. apply trace_ts_varg_ok. assumption. Qed.
+
+Theorem C10_ts_vrank_trace_in_bounds :
+  forall (A T B : Type) (NA : Num A) (DT : IsNone T A) (NB : Num B)
+         (body : bool) (w : nat) (mp : option nat) (pct rev : bool) (xs : list T) (len2 : nat),
+    length xs <= len2 -> Forall (acc_ok (length xs) len2) (trace_ts_vrank (B := B) body w mp pct rev xs).
+Proof. intros. apply trace_ts_vrank_ok. assumption. Qed.
+
+Theorem C10_ts_vminmaxnorm_trace_in_bounds :
+  forall (A T : Type) (NA : Num A) (DT : IsNone T A) (tmin tmax : A)
+         (body : bool) (w : nat) (mp : option nat) (xs : list T) (len2 : nat),
+    length xs <= len2 -> Forall (acc_ok (length xs) len2) (trace_ts_vminmaxnorm tmin tmax body w mp xs).
+Proof. intros. apply trace_ts_vminmaxnorm_ok. assumption. Qed.
+
+(* two series: every pair of lengths (a shorter second series is rejected before anything is read) *)
+Theorem C10_ts_vregx_resid_trace_in_bounds :
+  forall (A T1 T2 : Type) (NA : Num A) (D1 : IsNone T1 A) (D2 : IsNone T2 A) (k : rstat)
+         (body : bool) (w : nat) (mp : option nat) (xs : list T1) (ys : list T2),
+    Forall (acc_ok (length xs) (length ys)) (trace_ts_vregx_resid (A := A) k body w mp xs ys).
+Proof. intros. apply trace_ts_vregx_resid_ok. Qed.
+
+(* (8) two-phase bodies: the slots written are exactly 0..len-1, once each, in order *)
+Theorem C10_each_slot_once_ts_vmin_vmax :
+  forall (A T : Type) (NA : Num A) (DT : IsNone T A) (scmp : option A -> option A -> comparison)
+         (w : nat) (mp : option nat) (xs : list T),
+    bad_window w xs = false -> writes_of (trace_ts_vext scmp true w mp xs) = seq 0 (length xs).
+Proof. intros. apply trace_ts_vext_writes. assumption. Qed.
+
+Theorem C10_each_slot_once_ts_vargmin_vargmax :
+  forall (A T : Type) (NA : Num A) (DT : IsNone T A) (scmp : option A -> option A -> comparison)
+         (w : nat) (mp : option nat) (xs : list T),
+    scmp_refl_on scmp xs -> bad_window w xs = false ->
+    writes_of (trace_ts_varg scmp true w mp xs) = seq 0 (length xs).
+Proof. intros. apply trace_ts_varg_writes; assumption. Qed.
+
+Theorem C10_each_slot_once_ts_vrank :
+  forall (A T B : Type) (NA : Num A) (DT : IsNone T A) (NB : Num B)
+         (w : nat) (mp : option nat) (pct rev : bool) (xs : list T),
+    bad_window w xs = false -> writes_of (trace_ts_vrank (B := B) true w mp pct rev xs) = seq 0 (length xs).
+Proof. intros. apply trace_ts_vrank_writes. assumption. Qed.
+
+Theorem C10_each_slot_once_ts_vminmaxnorm :
+  forall (A T : Type) (NA : Num A) (DT : IsNone T A) (tmin tmax : A) (w : nat) (mp : option nat) (xs : list T),
+    bad_window w xs = false -> writes_of (trace_ts_vminmaxnorm tmin tmax true w mp xs) = seq 0 (length xs).
+Proof. intros. apply trace_ts_vminmaxnorm_writes. assumption. Qed.
+
+Theorem C10_each_slot_once_ts_vregx_resid :
+  forall (A T1 T2 : Type) (NA : Num A) (D1 : IsNone T1 A) (D2 : IsNone T2 A) (k : rstat)
+         (w : nat) (mp : option nat) (xs : list T1) (ys : list T2),
+    length xs <= length ys -> bad_window w xs = false ->
+    writes_of (trace_ts_vregx_resid (A := A) k true w mp xs ys) = seq 0 (length xs).
+Proof. intros. apply trace_ts_vregx_resid_writes; assumption. Qed.
+
+(* (9) the model's `uget` is a CHECKED read (out of range = Panic OtherPanic), `n -= 1` is `usub`,
+   `start.unwrap()` is Panic UnwrapNone: a result `Done out` says none of them happened.  Every series, every
+   window, every min_periods, both bodies, every carrier: a complete result, or the documented rejection of
+   window 0 on a non-empty series — never a panic inside the callback, never `Uninit`.                    *)
+Theorem C10_ts_vmin_safe :
+  forall (A T : Type) (NA : Num A) (DT : IsNone T A) (body : bool) (w : nat) (mp : option nat) (xs : list T),
+    kernel_safe w xs (ts_vmin body w mp xs).
+Proof. intros. apply ts_vmin_safe. Qed.
+Theorem C10_ts_vmax_safe :
+  forall (A T : Type) (NA : Num A) (DT : IsNone T A) (body : bool) (w : nat) (mp : option nat) (xs : list T),
+    kernel_safe w xs (ts_vmax body w mp xs).
+Proof. intros. apply ts_vmax_safe. Qed.
+(* the offset `min_idx - start` additionally needs that every non-null element equals itself (false only for
+   Some(NaN) in an optional float series, outside DESIGN 5.4) *)
+Theorem C10_ts_vargmin_safe :
+  forall (A T : Type) (NA : Num A) (DT : IsNone T A) (body : bool) (w : nat) (mp : option nat) (xs : list T),
+    self_eq_on xs -> kernel_safe w xs (ts_vargmin body w mp xs).
+Proof. intros. apply ts_vargmin_safe. assumption. Qed.
+Theorem C10_ts_vargmax_safe :
+  forall (A T : Type) (NA : Num A) (DT : IsNone T A) (body : bool) (w : nat) (mp : option nat) (xs : list T),
+    self_eq_on xs -> kernel_safe w xs (ts_vargmax body w mp xs).
+Proof. intros. apply ts_vargmax_safe. assumption. Qed.
+Theorem C10_ts_vargmin_vargmax_safe_int :
+  forall (T : Type) (DT : IsNone T Z) (body : bool) (w : nat) (mp : option nat) (xs : list T),
+    kernel_safe w xs (ts_vargmin body w mp xs) /\ kernel_safe w xs (ts_vargmax body w mp xs).
+Proof. intros. split; [apply ts_vargmin_safe|apply ts_vargmax_safe]; apply self_eq_on_Z. Qed.
+Theorem C10_ts_vrank_safe :
+  forall (A T B : Type) (NA : Num A) (DT : IsNone T A) (NB : Num B)
+         (body : bool) (w : nat) (mp : option nat) (pct rev : bool) (xs : list T),
+    kernel_safe w xs (ts_vrank (B := B) body w mp pct rev xs).
+Proof. intros. apply ts_vrank_safe. Qed.
+Theorem C10_ts_vminmaxnorm_safe :
+  forall (A T : Type) (NA : Num A) (DT : IsNone T A) (tmin tmax : A)
+         (body : bool) (w : nat) (mp : option nat) (xs : list T),
+    kernel_safe w xs (ts_vminmaxnorm tmin tmax body w mp xs).
+Proof. intros. apply ts_vminmaxnorm_safe. Qed.
+(* reg.rs residual statistics: the CHECKED text (reads through `uget`, `n -= 1` through `usub`) returns exactly
+   what the pure model of Model/Reg.v returns, for every window, every pair of lengths, both bodies *)
+Theorem C10_ts_vregx_resid_checked :
+  forall (A T1 T2 : Type) (NA : Num A) (D1 : IsNone T1 A) (D2 : IsNone T2 A) (k : rstat)
+         (body : bool) (w : nat) (mp : option nat) (xs : list T1) (ys : list T2),
+    ts_vregx_resid_chk (A := A) k body w mp xs ys = ts_vregx_resid k body w mp xs ys.
+Proof. intros. apply ts_vregx_resid_chk_eq. Qed.
+Theorem C10_ts_vregx_resid_safe :
+  forall (A T1 T2 : Type) (NA : Num A) (D1 : IsNone T1 A) (D2 : IsNone T2 A) (k : rstat)
+         (body : bool) (w : nat) (mp : option nat) (xs : list T1) (ys : list T2),
+    (exists out, ts_vregx_resid (A := A) k body w mp xs ys = Done out /\
+                 length out = Nat.min (length xs) (length ys)) \/
+    ts_vregx_resid (A := A) k body w mp xs ys = Panicked AssertFail.
+Proof. intros. apply ts_vregx_resid_safe. Qed.
+
+(* (10) vrank (tea-map): the checked, traced text (series = view 0, internal Vec<usize> idx_sorted = view 2, both of
+   length len; `i - j` and `len - repeat_num` through `usub`) performs only in-bounds accesses, never panics and
+   returns the value of Model/Rank.v — every series (empty, one element, all null), both flags, every carrier *)
+Theorem C10_vrank_checked :
+  forall (A T : Type) (NA : Num A) (DT : IsNone T A) (DX : IsNoneX T A) (pct rev : bool) (xs : list T),
+    Forall (acc_ok (length xs) (length xs)) (fst (vrank_tr pct rev xs)) /\
+    snd (vrank_tr pct rev xs) = Ok (vrank pct rev xs).
+Proof. intros. split; [apply vrank_tr_in_bounds|apply vrank_tr_value]. Qed.
+
+(* every output slot is written exactly once: on the uninitialised-buffer path (len >= 2, first sorted element
+   non-null) the slots written are a permutation of 0..len-1; the other paths return O::empty() / O::full(len, ..)
+   (an initialised allocation) and perform no `uset` *)
+Theorem C10_vrank_each_slot_once :
+  forall (A T : Type) (NA : Num A) (DT : IsNone T A) (DX : IsNoneX T A) (pct rev : bool) (xs : list T),
+    2 <= length xs ->
+    get_is_none xs (nth 0 (isort (cmp_idx (cmp_dir rev) xs) (seq 0 (length xs))) 0) = false ->
+    Permutation (writes_of (fst (vrank_tr pct rev xs))) (seq 0 (length xs)).
+Proof. intros. apply vrank_tr_writes_perm; assumption. Qed.
+Theorem C10_vrank_initialised_paths :
+  forall (A T : Type) (NA : Num A) (DT : IsNone T A) (DX : IsNoneX T A) (pct rev : bool) (xs : list T),
+    length xs <= 1 \/ get_is_none xs (nth 0 (isort (cmp_idx (cmp_dir rev) xs) (seq 0 (length xs))) 0) = true ->
+    writes_of (fst (vrank_tr pct rev xs)) = [] /\
+    (length xs <= 1 \/ vrank pct rev xs = repeat (Some nnan) (length xs)).
+Proof. intros. apply vrank_tr_writes_none; assumption. Qed.
+
+(* (11) vpartition / varg_partition / vquantile / vmedian *)
+Theorem C10_partition_select_in_range :
+  forall (A T : Type) (NA : Num A) (DT : IsNone T A) (kth : nat) (xs : list T),
+    (count_valid xs <=? kth + 1) = false ->
+    kth < length (seq 0 (length xs)) /\ kth < length xs /\ kth + 1 <= length xs.
+Proof. intros. apply partition_select_in_range. assumption. Qed.
+Theorem C10_varg_partition_trusted_len :
+  forall (A T : Type) (NA : Num A) (DT : IsNone T A) (kth : nat) (sort rev : bool) (xs : list T),
+    length (varg_partition kth sort rev xs) = kth + 1 /\
+    Forall (fun z => z = (-1)%Z \/ (0 <= z < Z.of_nat (length xs))%Z) (varg_partition kth sort rev xs).
+Proof. intros. split; [apply varg_partition_length|apply varg_partition_in_range]. Qed.
+Theorem C10_vpartition_trusted_len :
+  forall (A T : Type) (NA : Num A) (DT : IsNone T A) (DX : IsNoneX T A) (kth : nat) (sort rev : bool)
+         (xs : list T) (l : list T),
+    vpartition kth sort rev xs = Ok l -> length l = kth + 1.
+Proof. intros A T NA DT DX kth sort rev xs l. apply vpartition_length. Qed.
+Theorem C10_vpartition_panics_only_without_none :
+  forall (A T : Type) (NA : Num A) (DT : IsNone T A) (DX : IsNoneX T A) (kth : nat) (sort rev : bool) (xs : list T),
+    ((exists pad, tnone = Ok pad) \/ kth + 1 <= count_valid xs) ->
+    exists l, vpartition kth sort rev xs = Ok l /\ length l = kth + 1.
+Proof.
+  intros A T NA DT DX kth sort rev xs [[pad H]|H]; [apply (vpartition_ok _ _ _ _ pad H)|apply vpartition_no_padding_ok; exact H].
+Qed.
+Theorem C10_vquantile_rejects_bad_q :
+  forall (A T : Type) (NA : Num A) (NF : NumFloor A) (DT : IsNone T A) (q : A) (m : qmethod) (xs : list T),
+    nleb nzero q && nleb q none = false -> vquantile q m xs = Ok None.
+Proof. intros. apply vquantile_bad_q_any. assumption. Qed.
+Theorem C10_vquantile_index_in_range :
+  forall (A T : Type) (NA : Num A) (NF : NumFloor A) (DT : IsNone T A),
+    QIdxLaw (A := A) -> forall (q : A) (xs : list T),
+    nleb nzero q && nleb q none = true -> 2 <= count_valid xs -> qsel_index q (count_valid xs) < length xs.
+Proof. intros A T NA NF DT. apply vquantile_index_in_range. Qed.
+Theorem C10_vquantile_never_panics :
+  forall (A T : Type) (NA : Num A) (NF : NumFloor A) (DT : IsNone T A),
+    QIdxLaw (A := A) -> forall (q : A) (m : qmethod) (xs : list T),
+    exists r, vquantile q m xs = Ok r /\ (r = None <-> nleb nzero q && nleb q none = false).
+Proof. intros A T NA NF DT. apply vquantile_never_panics. Qed.
+Theorem C10_vquantile_vmedian_never_panic_real :
+  forall (q : XR) (m : qmethod) (xs : list XR),
+    (exists r, vquantile (NF := NumFloorXR) (DT := IsNoneXR) q m xs = Ok r /\
+               (r = None <-> nleb nzero q && nleb q none = false)) /\
+    (exists v, vmedian (NF := NumFloorXR) (DT := IsNoneXR) xs = Ok v).
+Proof. intros. split; [apply vquantile_never_panics_xr|apply vmedian_never_panics_xr]. Qed.
+Theorem C10_select_nth_panics_iff_out_of_range :
+  forall (A T : Type) (NA : Num A) (NF : NumFloor A) (DT : IsNone T A) (cmp : T -> T -> comparison) (j : nat) (slc : list T),
+    (j < length slc -> exists hm, select_nth cmp j slc = Ok hm) /\
+    (length slc <= j -> select_nth cmp j slc = Panic OtherPanic).
+Proof. intros. split; [apply select_nth_ok|apply select_nth_panics]. Qed.
+
+(* ---- non-vacuity of the new implications (integer carrier, never-null dictionary) ---- *)
+Example C10_kernel_trace_example :
+  trace_ts_vext (A := Z) (T := Z) (DT := IsNone_never) Cmp.sort_cmp true 2 (Some 1) [1; 3; 2]%Z
+  = [AUget 0 0; AUset 0; AUget 0 1; AUget 0 0; AUset 1; AUget 0 2; AUget 0 1; AUget 0 1; AUget 0 2; AUget 0 1; AUset 2].
+Proof. vm_compute. reflexivity. Qed.
+Example C10_kernel_safe_example :
+  ts_vargmin (A := Z) (T := Z) (DT := IsNone_never) true 2 (Some 1) [3; 1; 2]%Z = Done [Some 1; Some 2; Some 1]
+  /\ self_eq_on (A := Z) (DT := IsNone_never) [3; 1; 2]%Z
+  /\ ts_vargmin (A := Z) (T := Z) (DT := IsNone_never) true 0 (Some 1) [3]%Z = Panicked AssertFail
+  /\ bad_window 2 [3; 1; 2]%Z = false /\ bad_window 0 [3]%Z = true.
+Proof. split; [vm_compute; reflexivity|]. split; [apply self_eq_on_Z|]. repeat split; reflexivity. Qed.
+Example C10_resid_trace_example :
+  trace_ts_vregx_resid (A := Z) (T1 := Z) (T2 := Z) (D1 := IsNone_never) (D2 := IsNone_never) RMean true 2 (Some 1) [1; 2]%Z [5; 7; 9]%Z
+  = [AUget 0 0; AUget 1 0; AUget 0 0; AUget 1 0; AUset 0;
+     AUget 0 1; AUget 1 1; AUget 0 0; AUget 1 0; AUget 0 1; AUget 1 1; AUget 0 0; AUget 1 0; AUset 1]
+  /\ trace_ts_vregx_resid (A := Z) (T1 := Z) (T2 := Z) (D1 := IsNone_never) (D2 := IsNone_never) RMean true 2 (Some 1) [1; 2]%Z [5]%Z = [].
+Proof. split; vm_compute; reflexivity. Qed.
+Example C10_vrank_trace_example :
+  writes_of (fst (vrank_tr (A := Z) (T := Z) (DT := IsNone_never) (DX := IsNoneX_never) false false [30; 10; 20]%Z)) = [1; 2; 0]
+  /\ snd (vrank_tr (A := Z) (T := Z) (DT := IsNone_never) (DX := IsNoneX_never) false false [30; 10; 20]%Z)
+     = Ok [Some 3; Some 1; Some 2]%Z
+  /\ get_is_none (DT := IsNone_never) [30; 10; 20]%Z
+       (nth 0 (isort (cmp_idx (cmp_dir (DT := IsNone_never) false) [30; 10; 20]%Z) (seq 0 3)) 0) = false.
+Proof. repeat split; vm_compute; reflexivity. Qed.
+Example C10_partition_example :
+  varg_partition (A := Z) (T := Z) (DT := IsNone_never) 1 true false [30; 10; 20]%Z = [1; 2]%Z
+  /\ (count_valid (DT := IsNone_never) [30; 10; 20]%Z <=? 1 + 1) = false
+  /\ vpartition (A := Z) (T := Z) (DT := IsNone_never) (DX := IsNoneX_never) 4 false false [30; 10]%Z = Panic OtherPanic
+  /\ vpartition (A := Z) (T := Z) (DT := IsNone_never) (DX := IsNoneX_never) 1 true false [30; 10; 20]%Z = Ok [10; 20]%Z.
+Proof. repeat split; vm_compute; reflexivity. Qed.
+
 Print Assumptions C10_apply_reads_in_bounds.
 Print Assumptions C10_apply2_reads_in_bounds.
 Print Assumptions C10_idx_reads_in_bounds.
@@ -105,3 +372,39 @@ Print Assumptions C10_never_uninit.
 Print Assumptions C10_window0_rejected.
 Print Assumptions C10_empty_input.
 Print Assumptions C10_short_second_series_rejected.
+Print Assumptions C10_vext_cb_traced.
+Print Assumptions C10_varg_cb_traced.
+Print Assumptions C10_vrank_cb_traced.
+Print Assumptions C10_mmnorm_cb_traced.
+Print Assumptions C10_resid_cb_reads_in_window.
+Print Assumptions C10_ts_vmin_vmax_trace_in_bounds.
+Print Assumptions C10_ts_vargmin_vargmax_trace_in_bounds.
+Print Assumptions C10_ts_vrank_trace_in_bounds.
+Print Assumptions C10_ts_vminmaxnorm_trace_in_bounds.
+Print Assumptions C10_ts_vregx_resid_trace_in_bounds.
+Print Assumptions C10_each_slot_once_ts_vmin_vmax.
+Print Assumptions C10_each_slot_once_ts_vargmin_vargmax.
+Print Assumptions C10_each_slot_once_ts_vrank.
+Print Assumptions C10_each_slot_once_ts_vminmaxnorm.
+Print Assumptions C10_each_slot_once_ts_vregx_resid.
+Print Assumptions C10_ts_vmin_safe.
+Print Assumptions C10_ts_vmax_safe.
+Print Assumptions C10_ts_vargmin_safe.
+Print Assumptions C10_ts_vargmax_safe.
+Print Assumptions C10_ts_vargmin_vargmax_safe_int.
+Print Assumptions C10_ts_vrank_safe.
+Print Assumptions C10_ts_vminmaxnorm_safe.
+Print Assumptions C10_ts_vregx_resid_checked.
+Print Assumptions C10_ts_vregx_resid_safe.
+Print Assumptions C10_vrank_checked.
+Print Assumptions C10_vrank_each_slot_once.
+Print Assumptions C10_vrank_initialised_paths.
+Print Assumptions C10_partition_select_in_range.
+Print Assumptions C10_varg_partition_trusted_len.
+Print Assumptions C10_vpartition_trusted_len.
+Print Assumptions C10_vpartition_panics_only_without_none.
+Print Assumptions C10_vquantile_rejects_bad_q.
+Print Assumptions C10_vquantile_index_in_range.
+Print Assumptions C10_vquantile_never_panics.
+Print Assumptions C10_vquantile_vmedian_never_panic_real.
+Print Assumptions C10_select_nth_panics_iff_out_of_range.
